@@ -851,3 +851,80 @@ Example unskipped_is_error :
          [mk_srow KPlain (cT []) (CTmpl [NText [109; 32]%N; NOut (EAttr (EVar n_nmae) [107]%N)])] ex_ctx)
   = Err EUndefined.
 Proof. vm_compute. reflexivity. Qed.
+
+(* ------------------------------------------------------------------ row level: loop entries *)
+(* whatever parse_as_string / parse hand back as an OBJECT holds no Undefined object when native
+   results are looked through *)
+Lemma parse_as_string_obj_no_leak : forall fl pe pn octx c v,
+  f_nat_check fl = true -> parse_as_string_f fl pe pn octx c = Ok (PObj v) -> has_undef v = false.
+Proof.
+  intros fl pe pn octx c v Hf H. unfold parse_as_string_f in H.
+  destruct octx as [cx|]; [|discriminate].
+  repeat match type of H with
+         | (if ?b then _ else _) = _ => destruct b; try discriminate
+         end.
+  - destruct c as [t|e]; [discriminate|].
+    rewrite Hf in H. destruct (eval_native true pn e cx) as [w|] eqn:Ew; [|discriminate].
+    inversion H; subst. exact (native_no_leak _ _ _ _ Ew).
+  - destruct c as [t|e]; [|discriminate].
+    destruct (render (f_env_repr fl) pe (strip_last (strip_first t)) cx); discriminate.
+Qed.
+
+Lemma parse_obj_no_leak : forall fl pe pn octx c v,
+  f_nat_check fl = true -> parse_f fl pe pn octx c = Ok (PObj v) -> has_undef v = false.
+Proof.
+  intros fl pe pn octx c v Hf H. unfold parse_f in H.
+  destruct (parse_as_string_f fl pe pn octx c) as [[s|w|n]|] eqn:Ep; try discriminate.
+  inversion H; subst. exact (parse_as_string_obj_no_leak _ _ _ _ _ _ Hf Ep).
+Qed.
+
+Lemma nv_to_value_clean : forall v, has_undef (nv_to_value v) = false.
+Proof.
+  fix IH 1. intros [s|l]; [reflexivity|]. cbn [nv_to_value]. rewrite has_undef_list.
+  induction l as [|x r IHr]; cbn [map existsb]; [reflexivity|]. rewrite (IH x), IHr. reflexivity.
+Qed.
+
+Lemma existsb_false_Forall {T} (h : T -> bool) l : existsb h l = false -> Forall (fun x => h x = false) l.
+Proof.
+  induction l as [|x r IH]; cbn [existsb]; intros H; constructor.
+  - destruct (h x); [discriminate|reflexivity].
+  - apply IH. destruct (h x); [discriminate|exact H].
+Qed.
+
+(* the list a begin_for row iterates over: no element is, or holds at any depth, an Undefined
+   object - so no loop variable is ever bound to one - for every row, context, policy, log *)
+Theorem loop_entries_no_undefined : native_result_checked = true ->
+  forall pe pn octx r log log' inc es,
+  inst_row pe pn octx r log = (log', Ok (inc, MEntries es)) -> Forall (fun v => has_undef v = false) es.
+Proof.
+  intros Hnc pe pn octx r log log' inc es H. unfold inst_row in H.
+  destruct (parse_as_string_m pe pn octx (r_inc r)) as [pi|]; [|discriminate].
+  destruct (to_include pn pi) as [i|]; [|discriminate].
+  assert (Hm : forall k, (match parse_as_string_m pe pn octx (r_main r) with
+                         | Err e => (k, Err e)
+                         | Ok pm => match to_text pn pm with
+                                    | Err e => (k, Err e)
+                                    | Ok s => (k, Ok (i, MText s))
+                                    end
+                         end) = (log', Ok (inc, MEntries es)) -> False).
+  { intros k Hk. destruct (parse_as_string_m pe pn octx (r_main r)) as [pm|]; [|discriminate].
+    destruct (to_text pn pm); discriminate. }
+  destruct (rk r); try (exfalso; exact (Hm _ H)).
+  destruct (parse_m pe pn octx (r_main r)) as [pm|] eqn:Ep; [|discriminate].
+  destruct (to_entries pn pm) as [es'|] eqn:Ee; [|discriminate].
+  inversion H; subst es'. clear H Hm.
+  destruct pm as [s|v|n]; cbn [to_entries] in Ee.
+  - discriminate.
+  - assert (Hv : has_undef v = false).
+    { apply (parse_obj_no_leak tree_flags pe pn octx (r_main r) v); [exact Hnc|exact Ep]. }
+    destruct v; try (inversion Ee; subst; constructor; [exact Hv|constructor]).
+    + (* list *) inversion Ee; subst. rewrite has_undef_list in Hv. exact (existsb_false_Forall _ _ Hv).
+    + (* tuple *) inversion Ee; subst. rewrite has_undef_tuple in Hv. exact (existsb_false_Forall _ _ Hv).
+    + (* dict: the keys *) inversion Ee; subst. clear. induction d as [|kv d IH]; cbn [map]; constructor; [reflexivity|exact IH].
+    + (* range *) unfold range_items in Ee. destruct (Z.ltb 10000 n); [discriminate|]. inversion Ee; subst.
+      unfold zrange. clear. induction (seq 0 (Z.to_nat n)) as [|k l IH]; cbn [map]; constructor; [reflexivity|exact IH].
+    + (* Undefined itself *) discriminate.
+  - destruct n as [s|l]; inversion Ee; subst.
+    + constructor; [reflexivity|constructor].
+    + clear. induction l as [|x l IH]; cbn [map]; constructor; [apply nv_to_value_clean|exact IH].
+Qed.
